@@ -152,7 +152,40 @@ func (r *microRun) step(a Act) {
 			r.step(Act{K: "del", A: a.A})
 			return
 		}
+		if a.C > 0 && a.B == 0 {
+			// up to C messages that are in flight to this node reach it between Ready and Advance
+			k := a.C
+			s.beforeAdvance = func(n *node) {
+				// (any order is a legal arrival order: snapshots first, they are the rare ones)
+				for i := 0; i < len(r.nw.msgs) && k > 0; {
+					if r.nw.msgs[i].To == n.id && r.nw.msgs[i].Type == pb.MsgSnap {
+						s.deliver(r.nw.take(i))
+						s.ct.SteppedBeforeAdvance++
+						s.ct.SnapBeforeAdvance++
+						k--
+						if n.rn == nil || s.fail != "" {
+							return
+						}
+						continue
+					}
+					i++
+				}
+				for i := 0; i < len(r.nw.msgs) && k > 0; {
+					if r.nw.msgs[i].To == n.id {
+						s.deliver(r.nw.take(i))
+						s.ct.SteppedBeforeAdvance++
+						k--
+						if n.rn == nil || s.fail != "" {
+							return
+						}
+						continue
+					}
+					i++
+				}
+			}
+		}
 		s.processReady(rs[mod(a.A, len(rs))], a.B)
+		s.beforeAdvance = nil
 	case "del":
 		if len(r.nw.msgs) == 0 {
 			// quiescent: let time pass, or (every other time) have the leader append something
@@ -228,6 +261,24 @@ func (r *microRun) step(a Act) {
 		}
 		if len(mine) > 1 {
 			s.ct.Bursts++
+		}
+	case "rsn":
+		// the sender's transport reports on a snapshot that is still on its way: "finished" as soon as the
+		// bytes have left, or "failed" after a time-out of its own - the message may arrive all the same
+		for i := range r.nw.msgs {
+			m := &r.nw.msgs[mod(a.A+i, len(r.nw.msgs))]
+			if m.Type != pb.MsgSnap {
+				continue
+			}
+			if from := s.node(m.From); from != nil && from.rn != nil {
+				st := raft.SnapshotFinish
+				if a.B&1 == 1 {
+					st = raft.SnapshotFailure
+				}
+				from.rn.ReportSnapshot(m.To, st)
+				s.ct.EarlySnapReports++
+			}
+			break
 		}
 	case "settle":
 		s.ct.Settles++
@@ -515,6 +566,10 @@ func outcomeOf(s *sim, executed, profile int) kit.Outcome {
 	C.Label("joint-configs-entered", ct.JointCommitted)
 	C.Label("membership-changes-checked-one-at-a-time", ct.OneAtATimeChecks)
 	C.Label("proposal-batches-with-a-membership-change", ct.BatchProposals)
+	C.Label("snapshot-status-reported-while-the-snapshot-is-in-flight", ct.EarlySnapReports)
+	C.Label("messages-stepped-between-ready-and-advance", ct.SteppedBeforeAdvance)
+	C.Label("of-which-snapshots", ct.SnapBeforeAdvance)
+	C.Label("readies-re-emitting-persisted-entries-unchanged", ct.ReEmitted)
 	C.Label("commit-advances-checked-against-persisted-quorum", ct.CommitQuorumChecks)
 	C.Label("of-which-in-a-joint-configuration", ct.JointCommitChecks)
 	C.Label("leader-transfers-requested", ct.Transfers)
@@ -571,7 +626,7 @@ func genCase(t *rapid.T) Case {
 		{"rdy", 25}, {"del", 30}, {"tick", 6}, {"prop", 3}, {"tka", 1}, {"camp", 1},
 		{"drp", 2 * f}, {"dup", f}, {"iso", f}, {"heal", 2}, {"crash", f}, {"rst", 3},
 		{"cmp", 2}, {"cc", 2}, {"xfer", 1},
-		{"part", f}, {"burst", 2}, {"settle", 1},
+		{"part", f}, {"burst", 2}, {"settle", 1}, {"rsn", 2},
 	}
 	var table []string
 	for _, w := range ws {
@@ -588,6 +643,8 @@ func genCase(t *rapid.T) Case {
 			// crash inside Ready handling: ~1.2% (normal) / ~3.5% (chaotic) of the Readies
 			if z := ubits(t, 8); z < 3*f {
 				a.B = 1 + z%3
+			} else if z >= 224 {
+				a.C = 1 + z%3 // one Ready in eight: messages arrive between Ready and Advance
 			}
 		case "del", "dup":
 			// half of the deliveries take the oldest message (keeps the protocol moving), the
@@ -608,6 +665,9 @@ func genCase(t *rapid.T) Case {
 			a.A = ubits(t, 4)
 		case "part":
 			a.A = ubits(t, 7)
+		case "rsn":
+			a.A = ubits(t, 6)
+			a.B = ubits(t, 1)
 		case "settle":
 			a.B = ubits(t, 3)
 		case "xfer", "rst", "cmp":
